@@ -26,7 +26,7 @@ from ..monitors import EvalTracer
 
 glom = env.bind()
 import glom.core as gcore  # noqa: E402
-from glom import (T, S, A, Coalesce, Match, M, Fold, Sum, Flatten, Merge, Val, Spec, Pipe, Switch, Check, Iter, Assign, Call,  # noqa: E402
+from glom import (T, S, A, Vars, Coalesce, Match, M, Fold, Sum, Flatten, Merge, Val, Spec, Pipe, Switch, Check, Iter, Assign, Call,  # noqa: E402
                   GlomError, Path, Or, glom as G)
 from glom.grouping import Group, First, Max, Limit  # noqa: E402
 from glom.reduction import Count  # noqa: E402
@@ -198,6 +198,13 @@ def programs(n_yields):
         # before it reads the binding
         dict(name='shared-first-3', target=lambda: {'lim': 3, 'items': list(range(10))}, spec=lambda: _shared_first(n_yields)),
         dict(name='shared-first-6', target=lambda: {'lim': 6, 'items': list(range(10))}, spec=lambda: _shared_first(n_yields)),
+        # ONE Coalesce object, all of whose branches yield and then fail, shared by overlapping calls: each call's CoalesceError
+        # lists its own attempts only
+        dict(name='shared-coalesce-exhausted-a', target=lambda: {'a': 1}, spec=lambda: _shared_coalesce(n_yields)),
+        dict(name='shared-coalesce-exhausted-b', target=lambda: {'b': 2, 'zz0': {}}, spec=lambda: _shared_coalesce(n_yields)),
+        # ONE S(v=Vars(last='init')) step shared by calls that write into their Vars between two reads
+        dict(name='shared-vars-a', target=lambda: {'me': 'a'}, spec=lambda: _shared_vars(n_yields)),
+        dict(name='shared-vars-b', target=lambda: {'me': 'b'}, spec=lambda: _shared_vars(n_yields)),
         # every call raises an exception of ITS OWN class; all these classes share one __name__
         dict(name='same-named-exceptions', target=lambda: {'cls': type('NotFound', (LookupError,) if next(_serial) % 2 else (ValueError,), {})},
              spec=lambda: chain(T) + (lambda t: (_ for _ in ()).throw(t['cls']('nf')),),
@@ -222,6 +229,26 @@ def _shared_first(n):
         key = (Y, Call(operator.gt, args=(T, S.lim)))
         _SHARED_FIRST[n] = (S(lim=T['lim']), 'items', Iter().first(key=key, default='none'))
     return _SHARED_FIRST[n]
+
+
+_SHARED_COAL = {}
+_SHARED_VARS = {}
+
+
+def _shared_coalesce(n):
+    if n not in _SHARED_COAL:
+        _SHARED_COAL[n] = Coalesce(*[(Y, 'zz%d.q' % i) for i in range(max(n, 2))])
+    return _SHARED_COAL[n]
+
+
+def _shared_vars(n):
+    if n not in _SHARED_VARS:
+        pads = {('pad%d' % i): (Y, Val(i)) for i in range(max(n - 2, 0))}
+        body = {'before': (Y, S.v.last)}
+        body.update(pads)
+        body.update({'write': ('me', A.v.last), 'after': (Y, S.v.last)})
+        _SHARED_VARS[n] = (S(v=Vars(last='init')), body)
+    return _SHARED_VARS[n]
 
 
 def _tid_free(v):
